@@ -8,6 +8,70 @@ HERE = os.path.dirname(os.path.dirname(os.path.abspath(__file__)))
 TECH = "custom AST static analysis: "
 
 CLAIMS = {
+    "C01": dict(
+        text="Gate-only: decides that nothing reaches the caller of solve() without passing the 'closed tree and constraint fully eliminated' filter (writers of "
+        "self.solutions, provenance of solve's return value, state_is_valid_or_enqueue / SolutionState.complete), that every queued state went through "
+        "establish_invariant (DNF), that the elimination chain is well-typed and ordered, that free instantiation happens only when the remaining constraint is "
+        "true, that no elimination step forgets pending conjuncts (whole-constraint provenance of every constructed SolutionState) and that tree/constraint are "
+        "substituted coherently. Does NOT decide that the individual elimination steps preserve meaning nor grammar-validity of closed trees.",
+        note="Trusted: DerivationTree.is_open/is_complete, Formula.__eq__, asserts enabled, each rewrite's semantic correctness.",
+        technique=TECH + "who-may-write + return provenance, gate dominance, whole-vs-element def-use provenance of constructed states",
+        design="5/C01",
+    ),
+    "C10": dict(
+        text="Weakest level (gate only): rejection is total (every yield/return of parse dominated by 'whole text consumed' and 'finished start item'), the "
+        "start symbol handed to chart_parse has a single alternative (auxiliary start symbol for grammars with several start alternatives), coalescing merges "
+        "only adjacent terminals, and ISLaSolver.parse's plumbing. Does NOT decide correctness of the Earley chart.",
+        note="Trusted: chart construction and forest extraction.",
+        technique=TECH + "gate dominance via path facts, arity invariant of star-unpacked alternatives",
+        design="5/C10",
+    ),
+    "C11": dict(
+        text="Decides the escape layer of the BNF round trip: writer table and reader algorithm constant-folded from source and shown mutually inverse on all 256 "
+        "single characters and on all ordered pairs over a hazard alphabet (cross-boundary matches of sequential replace), lexer-significant characters escaped "
+        "as ESC sequences, freshness of the backslash placeholder, layout of rules/alternatives/empty alternative, and the '<' placeholder discipline. Does NOT "
+        "decide language equality per nonterminal.",
+        note="Trusted: str.replace semantics, dict order, ANTLR STRING token rule.",
+        technique=TECH + "constant folding of escape tables + abstract re-statement of the unescape algorithm over the folded tables",
+        design="5/C11",
+    ),
+    "C12": dict(
+        text="Weakest level (gate only): expand_tree returns only closed trees, expansion happens only at open leaves with the node's own alternatives and siblings "
+        "kept, swap only between equally labelled disjoint subtrees, replacement/generalisation re-open with the same label and close with the fuzzer.",
+        note="Trusted: asserts enabled; replace_path (C16).",
+        technique=TECH + "gate dominance and shape recognition",
+        design="5/C12",
+    ),
+    "C13": dict(
+        text="Weakest level (gate only): every tree appended to insert_tree's result is dominated by the validity, all-original-nodes-retained and "
+        "inserted-tree-contained checks; all three insertion methods feed only through that gate under their own method bits.",
+        note="Trusted: asserts enabled; grammar_graph.tree_is_valid.",
+        technique=TECH + "who-may-write the result list + gate dominance",
+        design="5/C13",
+    ),
+    "C14": dict(
+        text="Weakest level (gate only): create_fixed_length_tree returns only closed trees under curr_len == target_length with the recognised length bookkeeping; "
+        "count proposes replacements only with the exact needle count and no needle-reaching open leaf; numeric model values are returned only as parse "
+        "results for the variable's nonterminal.",
+        note="Trusted: numeric bookkeeping for every grammar is not decided.",
+        technique=TECH + "gate dominance via path facts (incl. for-else), shape recognition of the bookkeeping expression",
+        design="5/C14",
+    ),
+    "C18": dict(
+        text="Decides the plumbing between check/parse/repair/mutate: exact exception handling in check(str), the SemanticError condition of parse, provenance of "
+        "everything repair/mutate return (checked input or a solve() of a copy of this solver with the same formula/grammar).",
+        note="Trusted: evaluate (C03) and solve (C01).",
+        technique=TECH + "handler/gate recognition and return provenance",
+        design="5/C18",
+    ),
+    "C22": dict(
+        text="Decides that within the solver's import closure every random choice comes from the user-seeded module-level generator, Z3 seeds derive from it, "
+        "wall-clock values only feed the timeout bookkeeping, no builtin id()/address ordering is used, and hashed classes define value-based __hash__. Does NOT "
+        "decide Z3's internal nondeterminism under timeouts.",
+        note="Trusted: fixed PYTHONHASHSEED as the property states; Z3 deterministic for equal seeds up to timeouts.",
+        technique=TECH + "nondeterminism-source classification over the import closure, seed provenance",
+        design="5/C22",
+    ),
     "C03": dict(
         text="Decides structural necessary conditions of evaluate(): arity + exhaustiveness of the legacy dispatch modulo the routing guard (and that no caller "
         "bypasses the guard), coverage of the second strategy, the aggregator table (and/forall -> all, or/exists -> any, not -> not_, vacuous values), "
